@@ -523,24 +523,36 @@ func (q *seqRun) insert(blocks []*types.Block) {
 		return
 	}
 	x := u.tree.ByHash[cur.Hash()].Block
-	after := u.waitHead(x)
-	if after == nil {
-		q.dead = true
-		return
-	}
 	op := "head_advance"
 	if !u.tree.IsAncestor(oldHead, x) {
 		op = "head_reorg"
 	}
 	u.c.Count(op)
-	u.checkInv(after, opCtx{op: op, before: before})
-	q.observeHead(before, after, oldHead, x)
 	if op == "head_reorg" {
 		if oldHead.NumberU64() > x.NumberU64() {
 			u.c.Count("reorg_to_lower_height")
 		} else if oldHead.NumberU64() == x.NumberU64() {
 			u.c.Count("reorg_to_equal_height")
 		}
+	}
+	after, followed := u.waitHead(x, false)
+	if after == nil {
+		q.dead = true
+		return
+	}
+	if !followed {
+		// the pool ignored the head: say what that means for the dropped
+		// transactions, then end the case (the harness's picture of the pool's
+		// head no longer holds)
+		if op == "head_reorg" {
+			u.checkReorg(before, after, oldHead, x, 0, nil)
+		}
+		q.dead = true
+		return
+	}
+	u.checkInv(after, opCtx{op: op, before: before})
+	q.observeHead(before, after, oldHead, x)
+	if op == "head_reorg" {
 		u.checkReorg(before, after, oldHead, x, 0, nil)
 	}
 	q.s = after
